@@ -145,6 +145,9 @@ def run(prop, tier, seed):
             f.flag("refusal_explained", o["explained"], when=o["outcome"] == "refused")
             f.flag("no_internal_error", o["explained"], when=o["outcome"] == "raised")
             f.flag("constructible", o["outcome"] != "construct_error")
+            if o.get("fista_viol") is not None:
+                f.le("fista_claim_near_stationary", o["fista_viol"], o["fista_bound"],
+                     when=o["outcome"] == "solved" and o["stop_crit"] <= o["tol"])
             if o["trace"] is not None and o["outcome"] == "solved":
                 t = o["trace"]
                 t["id"] = tid
@@ -182,7 +185,8 @@ def run(prop, tier, seed):
     ck.add_verdicts(v)
     if vs:
         ck.add_verdicts(vs)
-    mine = {"alive", "terminates", "refusal_explained", "no_internal_error", "constructible"}
+    mine = {"alive", "terminates", "refusal_explained", "no_internal_error", "constructible",
+            "fista_claim_near_stationary"}
     for t in facts:
         names = {c for c, _ in v.bad(t["id"])}
         meta = t["meta"]
